@@ -31,6 +31,20 @@ theorem tagRows_fst {fid j : Nat} {rows : List PRow} {x : TRow} (h : x ∈ tagRo
       simp only [List.length_cons]
       omega
 
+theorem tagRows_getElem {fid j : Nat} {rows : List PRow} {x : TRow} (h : x ∈ tagRows fid j rows) :
+    rows[x.1.2 - j]? = some x.2 ∧ j ≤ x.1.2 := by
+  induction rows generalizing j with
+  | nil => simp [tagRows] at h
+  | cons a t ih =>
+    simp only [tagRows, List.mem_cons] at h
+    rcases h with rfl | h
+    · simp
+    · obtain ⟨h1, h2⟩ := ih h
+      refine ⟨?_, by omega⟩
+      have : x.1.2 - j = (x.1.2 - (j + 1)) + 1 := by omega
+      rw [this, List.getElem?_cons_succ]
+      exact h1
+
 theorem tagRows_map_snd (fid j : Nat) (rows : List PRow) : (tagRows fid j rows).map (·.2) = rows := by
   induction rows generalizing j with
   | nil => rfl
@@ -292,27 +306,34 @@ theorem fragIds_moveFrags_sublist (A : List (Nat × Nat)) (frags : List Frag) :
       rw [markFrag_id hm]
       exact List.Sublist.cons_cons _ ih
 
-/-- the literal arm (`applyFrags`) is `moveFrags` when the transaction's lists describe every fragment correctly -/
-theorem applyFrags_eq_moveFrags (T : Txn) (A : List (Nat × Nat)) (frags : List Frag)
-    (h1 : ∀ f ∈ frags, T.removed.contains f.id = (hasAddr A f.id && allDeleted (extendDel A f)))
-    (h2 : ∀ f ∈ frags, T.removed.contains f.id = false →
+/-- the Delete / Update arm of `build_manifest` for one existing fragment -/
+def applyOne (T : Txn) (f : Frag) : Option Frag :=
+  if T.removed.contains f.id then none
+  else
+    match T.updated.find? fun u => u.id == f.id with
+    | some u => some u
+    | none => some f
+
+theorem applyFrags_def (T : Txn) (frags : List Frag) : applyFrags T frags = frags.filterMap (applyOne T) := rfl
+
+/-- the literal arm treats a fragment like `markFrag` when the transaction's lists describe it correctly -/
+theorem applyOne_eq_markFrag (T : Txn) (A : List (Nat × Nat)) (f : Frag)
+    (h1 : T.removed.contains f.id = (hasAddr A f.id && allDeleted (extendDel A f)))
+    (h2 : T.removed.contains f.id = false →
       T.updated.find? (fun u => u.id == f.id) = if hasAddr A f.id then some (extendDel A f) else none) :
-    applyFrags T frags = moveFrags A frags := by
-  unfold applyFrags moveFrags
-  apply filterMap_congr'
-  intro f hf
-  unfold markFrag
+    applyOne T f = markFrag A f := by
+  unfold applyOne markFrag
   by_cases hr : T.removed.contains f.id = true
   · rw [if_pos hr]
-    have := h1 f hf
+    have := h1
     rw [hr] at this
     have := this.symm
     simp only [Bool.and_eq_true] at this
     rw [if_pos this.1, if_pos this.2]
   · rw [if_neg hr]
     have hr' : T.removed.contains f.id = false := by simpa using hr
-    rw [h2 f hf hr']
-    have := h1 f hf
+    rw [h2 hr']
+    have := h1
     rw [hr'] at this
     by_cases ha : hasAddr A f.id = true
     · rw [if_pos ha, if_pos ha]
@@ -321,5 +342,20 @@ theorem applyFrags_eq_moveFrags (T : Txn) (A : List (Nat × Nat)) (frags : List 
         simpa using this.symm
       simp [hd]
     · rw [if_neg ha, if_neg ha]
+
+theorem applyFrags_eq_moveFrags (T : Txn) (A : List (Nat × Nat)) (frags : List Frag)
+    (h : ∀ f ∈ frags, applyOne T f = markFrag A f) : applyFrags T frags = moveFrags A frags := by
+  rw [applyFrags_def]
+  unfold moveFrags
+  exact filterMap_congr' h
+
+theorem markFrag_some {A : List (Nat × Nat)} {f g : Frag} (h : markFrag A f = some g) :
+    g = f ∨ g = extendDel A f := by
+  unfold markFrag at h
+  split at h
+  · split at h
+    · cases h
+    · cases h; exact Or.inr rfl
+  · cases h; exact Or.inl rfl
 
 end LanceModel.C18
